@@ -35,7 +35,11 @@ META = dict(
          "through a recording fake transport. The oracle checks call order, stop at first success, that the "
          "returned AuthResult (or AuthFailure.result) lists exactly the attempted sources in order, each with the "
          "very object it returned or raised, and that AuthFailure is raised exactly when nobody succeeded. "
-         "Reuse histories call authenticate() 2-4 times on ONE strategy instance (retry after failure, call after "
+         "Sequence cases repeat the same source object (or distinct objects that compare equal) inside one "
+         "get_sources() run and produce it from generators with side effects (plain, adaptive = next source chosen "
+         "from the previous outcome, faulting when resumed after the winner): the produce/try interleaving must be "
+         "strictly alternating and stop at the winner, and the result must hold one entry per attempt with that "
+         "attempt's own outcome. Reuse histories call authenticate() 2-4 times on ONE strategy instance (retry after failure, call after "
          "success; fresh or the very same source objects): each call is judged by the same per-call model and "
          "every earlier result object is re-compared with its snapshot after each later call. "
          "Holds on the executions produced.",
@@ -389,6 +393,173 @@ def history_case(ctx, rng, hi):
     ctx.count("reuse_histories_run")
 
 
+# ---- repeated / equal sources in one sequence, and laziness of get_sources() ------------------------------
+class QStub(AuthSource):
+    """Source whose successive authenticate() calls play successive outcomes; optionally compares equal to
+    other sources with the same label (two OnDiskPrivateKey for one path, a password asked twice)."""
+
+    def __init__(self, label, events, eq_by_label=False):
+        super().__init__(username="u-" + label)
+        self.label = label
+        self.queue = []
+        self.events = events
+        self.eq_by_label = eq_by_label
+
+    def __repr__(self):
+        return "QStub(%s)" % self.label
+
+    def __eq__(self, other):
+        if self.eq_by_label and isinstance(other, QStub):
+            return self.label == other.label
+        return self is other
+
+    def __hash__(self):
+        return hash(self.label) if self.eq_by_label else id(self)
+
+    def authenticate(self, transport):
+        self.events.append(("try", self))
+        outcome = self.queue.pop(0)
+        if isinstance(outcome, BaseException):
+            raise outcome
+        return outcome
+
+
+class GeneratorFault(Exception):
+    """Raised by a scripted get_sources() when it is resumed after the winning source."""
+
+
+def sequence_case(ctx, rng, si):
+    """One authenticate() over a sequence in which the same object (or an equal one) may appear several times,
+    produced by a generator with side effects. Judged from the interleaving of produce/try events."""
+    events = []
+    n = rng.randint(1, 7)
+    repeat_mode = rng.choice(["none", "same-object", "equal-objects", "same-object"])
+    pool_size = n if repeat_mode == "none" else rng.randint(1, max(1, n - 1))
+    eq = repeat_mode == "equal-objects"
+    p_ok = rng.choice([0.0, 0.0, 0.15, 0.35])
+    attempts = []  # per position: (source object, outcome object, outcome name)
+    objs = {}
+    for pos in range(n):
+        lab = "s%d" % rng.randrange(pool_size)
+        if eq:
+            src = QStub(lab, events, eq_by_label=True)  # a distinct object that == the earlier one
+        else:
+            src = objs.setdefault(lab, QStub(lab, events))
+        oname = "ok" if rng.random() < p_ok else rng.choice(EXC_KINDS)
+        outcome = [] if oname == "ok" else make_exc(rng, oname)
+        attempts.append((src, outcome, oname))
+    first_ok = next((i for i, a in enumerate(attempts) if a[2] == "ok"), None)
+    tried = n if first_ok is None else first_ok + 1
+    for src, outcome, _ in attempts[:tried]:
+        src.queue.append(outcome)
+    for src, _, _ in attempts[tried:]:
+        src.queue.append(AssertionError("source after the winner was tried"))
+    style = rng.choice(["plain", "adaptive", "fault-after-winner", "fault-after-winner"])
+    if first_ok is None and style == "fault-after-winner":
+        style = "plain"
+    repeats = len({id(a[0]) for a in attempts[:tried]}) < tried or (eq and len({a[0].label for a in attempts[:tried]}) < tried)
+
+    class S(AuthStrategy):
+        def get_sources(self):
+            for pos, (src, outcome, oname) in enumerate(attempts):
+                if style == "adaptive" and pos > 0:
+                    # decide from what happened to the previous source: it must already have been tried
+                    prev = attempts[pos - 1][0]
+                    if not any(e == ("try", prev) or (e[0] == "try" and e[1] is prev) for e in events):
+                        events.append(("adaptive-generator-saw-untried-predecessor", pos))
+                events.append(("produce", src))
+                yield src
+                if style == "fault-after-winner" and pos == first_ok:
+                    events.append(("resumed-after-winner", pos))
+                    raise GeneratorFault("get_sources() resumed after the winning source")
+
+    desc = dict(sequence=[(a[0].label, a[2]) for a in attempts], repeat_mode=repeat_mode, generator=style)
+    ctx.case(("sequence", repr(desc)), sample=dict(kind="repeated sources / lazy generator", **desc) if si < 1 else None)
+    strategy = S(ssh_config=paramiko.SSHConfig())
+    transport = object()
+    raised = result = None
+    try:
+        result = strategy.authenticate(transport)
+    except AuthFailure as e:
+        raised = e
+    except GeneratorFault:
+        ctx.violation("get_sources() was resumed after the winning source and its exception escaped authenticate()",
+                      "generator fault lies after the winner", desc)
+        return
+    except Exception as e:
+        if any(a[1] is e for a in attempts):
+            ctx.violation("exception raised by a source escaped authenticate() (%s)" % exc_class(e),
+                          type(e).__name__, desc)
+        else:
+            ctx.violation("exception from AuthStrategy.authenticate: " + exc_signature(e), repr(e)[:200], desc)
+        return
+    ctx.count("sequence_cases_judged")
+    if style == "adaptive":
+        ctx.count("adaptive_generator_cases")
+    if style == "fault-after-winner":
+        ctx.count("generators_with_fault_after_winner")
+    # -- laziness: produce s_i, try s_i, produce s_i+1, ... and nothing after the winner
+    want_events = []
+    for src, _, _ in attempts[:tried]:
+        want_events += [("produce", src), ("try", src)]
+    got_events = [(k, v) for k, v in events]
+    ctx.count("produce_try_interleavings_checked")
+    same = len(got_events) == len(want_events) and all(a[0] == b[0] and a[1] is b[1] for a, b in zip(got_events, want_events))
+    if not same:
+        kinds = [e[0] for e in got_events]
+        nprod, ntry = kinds.count("produce"), kinds.count("try")
+        if "adaptive-generator-saw-untried-predecessor" in kinds or (
+                nprod >= 2 and kinds[:2] == ["produce", "produce"]):
+            sig = "get_sources() is consumed ahead of the attempts (a source is produced before its predecessor was tried)"
+        elif "resumed-after-winner" in kinds or nprod > tried:
+            sig = "get_sources() is advanced past the winning source"
+        elif ntry < tried:
+            sig = "an attempt is missing: a repeated or equal source was not tried again" if repeats else \
+                "a source that should have been attempted was skipped"
+        elif ntry > tried:
+            sig = "a source was attempted after an earlier source had succeeded"
+        else:
+            sig = "produce/try events of get_sources() and the attempts are out of order"
+        ctx.violation(sig, "events %r" % [(k, getattr(v, "label", v)) for k, v in got_events][:16], desc)
+        return
+    # -- the result lists EVERY attempt, in order, each with its own outcome
+    if first_ok is None:
+        if raised is None:
+            ctx.violation("every source failed but authenticate() returned normally", "", desc)
+            return
+        res, where = getattr(raised, "result", None), "AuthFailure.result"
+    else:
+        if raised is not None:
+            ctx.violation("a source succeeded but authenticate() raised AuthFailure", "", desc)
+            return
+        res, where = result, "returned result"
+    try:
+        items = list(res)
+    except TypeError:
+        ctx.violation("%s is not a list of (source, result) entries" % where, repr(res)[:100], desc)
+        return
+    if repeats:
+        ctx.count("sequences_with_repeated_or_equal_sources")
+        ctx.count("repeated_attempts_judged", tried)
+    if len(items) != tried:
+        ctx.violation("%s has %s entries than attempts were made (%s)"
+                      % (where, "fewer" if len(items) < tried else "more",
+                         "sequence repeats a source" if repeats else "no repeated source"),
+                      "%d entries for %d attempts" % (len(items), tried), desc)
+        return
+    for pos, item in enumerate(items):
+        src, outcome, _ = attempts[pos]
+        if getattr(item, "source", None) is not src:
+            ctx.violation("%s lists the sources in a different order than attempted" % where, "entry %d" % pos, desc)
+            return
+        got = getattr(item, "result", None)
+        if got is not outcome and not (outcome == [] and got == []):
+            ctx.violation("%s does not carry each attempt's own outcome (%s)"
+                          % (where, "sequence repeats a source" if repeats else "no repeated source"),
+                          "entry %d holds %r" % (pos, got), desc)
+            return
+
+
 def run(ctx):
     rng = ctx.rng
     idx = 0
@@ -416,6 +587,14 @@ def run(ctx):
         judge(ctx, desc, how, sources, outcomes, transport, log)
     for hi in range(ctx.pick(3000, 20000)):
         history_case(ctx, rng, hi)
+    for si in range(ctx.pick(5000, 30000)):
+        sequence_case(ctx, rng, si)
+    ctx.require("sequence_cases_judged", 5000)
+    ctx.require("produce_try_interleavings_checked", 5000)
+    ctx.require("sequences_with_repeated_or_equal_sources", 1500)
+    ctx.require("repeated_attempts_judged", 4000)
+    ctx.require("adaptive_generator_cases", 800)
+    ctx.require("generators_with_fault_after_winner", 400)
     ctx.require("reuse_histories_run", 2000)
     ctx.require("second_or_later_calls_judged", 3000)
     ctx.require("earlier_results_recompared", 3000)
